@@ -333,10 +333,20 @@ impl SDJWTVerifier {
                         .ok_or(Error::InvalidArrayDisclosureObject(
                             value_for_digest.to_string(),
                         ))?;
+                if disclosure.len() != 3 {
+                    return Err(Error::InvalidDisclosure(
+                        "Object member disclosure must have 3 elements".to_string(),
+                    ));
+                }
                 let key = disclosure[1]
                     .as_str()
                     .ok_or(Error::ConversionError("str".to_string()))?
                     .to_owned();
+                if key == SD_DIGESTS_KEY || key == SD_LIST_PREFIX {
+                    return Err(Error::InvalidDisclosure(
+                        "Reserved claim name in disclosure".to_string(),
+                    ));
+                }
                 let value = disclosure[2].clone();
                 if pre_output.contains_key(&key) {
                     return Err(Error::DuplicateKeyError(key.to_string()));
@@ -372,6 +382,11 @@ impl SDJWTVerifier {
                     .ok_or(Error::InvalidArrayDisclosureObject(
                         value_for_digest.to_string(),
                     ))?;
+            if disclosure.len() != 2 {
+                return Err(Error::InvalidDisclosure(
+                    "Array element disclosure must have 2 elements".to_string(),
+                ));
+            }
 
             let value = disclosure[1].clone();
             let unpacked_value = self.unpack_disclosed_claims(&value)?;
